@@ -19,6 +19,7 @@ RULE = ("stream 'roundtrip': plaintext lengths 0..64 exhaustively (thorough: 0..
         "must raise. stream 'unpad': ciphertexts with a valid tag whose last block carries arbitrary padding bytes: real decrypt result vs the "
         "model's unpad. stream 'shared': one cipher object used by 2-3 threads at once (cooperative scheduler, scheduling points at the cipher's source lines): "
         "each call must give the result it gives alone. distinct = distinct (stream, length, kind, key, position).")
+RULE += (' The per-kind entry points (encrypt_image / decrypt_audio / ...) are compared with the reference blob of their kind and fed blobs of another kind.')
 ASSUMPTIONS = ["AES-256-CBC is a keyed bijection on whole blocks (cryptography / openssl agree on it)", "HMAC-SHA256 and HKDF are modelled as abstract functions; "
                "collision-freeness of the truncated MAC on the compared inputs is a named hypothesis of the tamper theorems, exercised here on real inputs",
                "openssl CLI + stdlib HKDF = the independent implementation of the WhatsApp media layout"]
@@ -264,7 +265,27 @@ def run_case(chk, stream, case):
         if ref != ct:
             fails.append(oracle("C15:layout-differs", "plaintext of %d bytes (%s): ciphertext (%d bytes) differs from the independent implementation (%d bytes)"
                                 % (n, case["kind"], len(ct), len(ref))))
-        elif n in (0, 16, 33):
+        # oracle 3: the per-kind entry points (encrypt_image / decrypt_audio / ...) are the same function of (content, key, THEIR kind): same blob
+        # as the reference for that kind, a blob of that kind comes back, a blob of another kind is rejected
+        if n <= 64 or n % 7 == 0:
+            kind = case["kind"]
+            other = KINDS[(KINDS.index(kind) + 1 + n % 3) % len(KINDS)]
+            try:
+                ek = getattr(mc, "encrypt_" + kind)(p, key)
+                dk = getattr(mc, "decrypt_" + kind)(ref, key)
+            except Exception as e:
+                ek = dk = None
+                fails.append(oracle("C15:kind-entry-point:%s" % kind, "encrypt_%s / decrypt_%s on %d bytes and the reference blob of that kind: %s: %s" % (kind, kind, n, type(e).__name__, e)))
+            if ek is not None and (ek != ref or dk != p):
+                fails.append(oracle("C15:kind-entry-point:%s" % kind, "plaintext of %d bytes: %s" % (n, "encrypt_%s does not produce the %s blob of the independent implementation" % (kind, kind)
+                                    if ek != ref else "decrypt_%s does not return the content of a genuine %s blob" % (kind, kind))))
+            if other != kind:
+                try:
+                    out = getattr(mc, "decrypt_" + other)(ref, key)
+                    fails.append(oracle("C15:kind-entry-point:wrong-kind-accepted", "plaintext of %d bytes: decrypt_%s accepts a genuine %s blob (%d bytes returned)" % (n, other, kind, len(out))))
+                except Exception:
+                    chk.hit("kind-entry-point:other-kind-rejected")
+        if ref == ct and n in (0, 16, 33):
             mk = _keys[2]
             if refcrypto.hmac_sha256_openssl(mk, iv + ct[:-10])[:10] != ct[-10:]:
                 fails.append(oracle("C15:layout-differs", "tag differs from openssl's HMAC for %d bytes" % n))
